@@ -81,35 +81,86 @@ f1! { f1b_body;
     c03_f1b_line_comment_normal_untouched_sep => (2, b"--------")
 }
 
-/// F2: format_compiler_directive twice == once. The result has the length of the input, so it is
-/// copied into a fresh buffer of that (concrete) length before the second application.
-fn f2_body(n: usize, opener: &'static [u8]) {
+/// Reference for the part of a directive that is its *name* (what gets upper-cased): either a
+/// switch list `A+,B-,C1` or a word `[A-Za-z][A-Za-z0-9_]*`. Returns None when the text is not
+/// a well-formed directive start (then the rule must leave the token alone).
+fn ref_directive_name_len(s: &[u8]) -> Option<usize> {
+    // states: 0 before, 1 after letter, 2 after +/-, 3 after digit, 4 after comma, 5 in word
+    let mut st = 0u8;
+    let mut is_switch = false;
+    let mut n = 0;
+    while n < s.len() {
+        let b = s[n];
+        let letter = b.is_ascii_alphabetic();
+        let digit = b.is_ascii_digit();
+        st = match st {
+            0 | 4 if letter => 1,
+            1 if b == b'+' || b == b'-' => { is_switch = true; 2 }
+            2 | 3 if b == b',' => 4,
+            1 | 3 if digit => { is_switch = true; 3 }
+            1 | 5 if (letter || digit || b == b'_') && !is_switch => 5,
+            1 if b == b',' => return None,
+            4 | 1 => return None,
+            _ => break,
+        };
+        n += 1;
+    }
+    Some(n)
+}
+
+/// F2 = F2a + F2b (a second application on the merged result of the first does not fit in memory):
+/// (a) after the rule, the directive name of the result holds no lower-case letter;
+/// (b) a token whose directive name holds no lower-case letter is left untouched.
+fn f2a_body(n: usize, opener: &'static [u8]) {
     let input = sym_text(opener, n, &crate::c01_tables::DIR_SIGMA, b"");
     let mut t = tok(input, 0, TokenType::CompilerDirective);
     cc::format_compiler_directive(&mut t);
-    let len = input.len();
-    assert!(t.get_content().len() == len);
-    let mut v = Vec::with_capacity(len);
-    let mut k = 0;
-    while k < len {
-        v.push(t.get_content().as_bytes()[k]);
-        k += 1;
+    let out = t.get_content().as_bytes();
+    assert!(out.len() == input.len());
+    if let Some(len) = ref_directive_name_len(&out[opener.len()..]) {
+        let mut k = 0;
+        while k < len {
+            assert!(!out[opener.len() + k].is_ascii_lowercase(), "result of the directive rule is not in normal form");
+            k += 1;
+        }
     }
-    let once = leak_str(v);
-    let mut t2 = tok(once, 0, TokenType::CompilerDirective);
-    cc::format_compiler_directive(&mut t2);
-    assert!(bytes_eq(t2.get_content().as_bytes(), once.as_bytes()), "directive normalisation is not a fixpoint");
-    cover!(!bytes_eq(once.as_bytes(), input.as_bytes()), "first_pass_changed_something");
+    cover!(!bytes_eq(out, input.as_bytes()), "changed_something");
     std::mem::forget(t);
-    std::mem::forget(t2);
 }
-macro_rules! f2 { ($($name: ident => ($n: expr, $op: expr)),*) => {$(
-    str_harness! { fn $name() unwind(14) { f2_body($n, $op) } }
+/// (b) shape: opener, `k` name bytes without lower-case letters, a name terminator (blank or
+/// closer), then arbitrary bytes (lower-case allowed: they are outside the name).
+fn f2b_body(k: usize, opener: &'static [u8]) {
+    let mut v = Vec::with_capacity(12);
+    v.push(b' ');
+    let mut i = 0;
+    while i < opener.len() { v.push(opener[i]); i += 1; }
+    let mut i = 0;
+    while i < k { v.push(pick(&[b'Z', b'Q', b'1', b'_', b'+', b'-', b','])); i += 1; }
+    v.push(pick(&[b' ', b'}', b'*']));
+    v.push(pick(&crate::c01_tables::DIR_SIGMA));
+    v.push(pick(&crate::c01_tables::DIR_SIGMA));
+    let input = leak_str(v);
+    let mut t = tok(input, 1, TokenType::CompilerDirective);
+    cc::format_compiler_directive(&mut t);
+    assert!(pasfmt_core::lang::verif_hooks_lang::token_ws_len(&t) == 1, "normal-form directive was rewritten");
+    assert!(bytes_eq(t.get_content().as_bytes(), &input.as_bytes()[1..]));
+    cover!(input.as_bytes()[input.len() - 1] == b'a', "lowercase_outside_name");
+    std::mem::forget(t);
+}
+macro_rules! f2 { ($body: ident; $($name: ident => ($n: expr, $op: expr)),*) => {$(
+    str_harness! { fn $name() unwind(14) { $body($n, $op) } }
 )*}}
-f2! {
-    c03_f2_directive_fixpoint_len3 => (3, b"{$"),
-    c03_f2_directive_fixpoint_len4 => (4, b"{$"),
-    c03_f2_directive_fixpoint_parenstar_len3 => (3, b"(*$")
+f2! { f2a_body;
+    c03_f2a_directive_result_normal_len3 => (3, b"{$"),
+    c03_f2a_directive_result_normal_len4 => (4, b"{$"),
+    c03_f2a_directive_result_normal_len5 => (5, b"{$"),
+    c03_f2a_directive_result_normal_parenstar_len3 => (3, b"(*$")
+}
+f2! { f2b_body;
+    c03_f2b_directive_normal_untouched_name1 => (1, b"{$"),
+    c03_f2b_directive_normal_untouched_name2 => (2, b"{$"),
+    c03_f2b_directive_normal_untouched_name3 => (3, b"{$"),
+    c03_f2b_directive_normal_untouched_parenstar_name2 => (2, b"(*$")
 }
 
 /// F3: a keyword in any letter case is recognised as the same keyword as its lower-cased form
